@@ -233,26 +233,7 @@ func (th *Thread) rtypeIface(t types.Type) Value {
 	return Iface{t: rt, v: &Opaque{kind: "rtype", data: t}}
 }
 
-func (th *Thread) rtypeMethod(o *Opaque, name string) *Native {
-	t := o.data.(types.Type)
-	switch name {
-	case "Elem":
-		return &Native{name: "rtype.Elem", fn: func(th *Thread, a []Value) Value {
-			switch u := t.Underlying().(type) {
-			case *types.Pointer:
-				return th.rtypeIface(u.Elem())
-			case *types.Slice:
-				return th.rtypeIface(u.Elem())
-			}
-			th.st.abort("rtype.Elem of %v", t)
-			return nil
-		}}
-	case "String", "Name":
-		return &Native{name: "rtype.String", fn: func(th *Thread, a []Value) Value { return concreteStr(t.String()) }}
-	}
-	th.st.abort("reflect.Type.%s not modelled", name)
-	return nil
-}
+func (th *Thread) rtypeMethod(o *Opaque, name string) *Native { return th.rtypeMethodFull(o, name) }
 
 // ---- package initialisation --------------------------------------------------
 
